@@ -63,6 +63,22 @@ func main() {
 	write := func(name string, data []byte) {
 		must(os.WriteFile(filepath.Join(dir, name), data, 0o644))
 	}
+	if len(os.Args) > 2 && os.Args[2] == "only-rsa-b" {
+		// a second RSA key for apk (key rotation cases)
+		k, err := rsa.GenerateKey(rand.Reader, 2048)
+		must(err)
+		p1 := x509.MarshalPKCS1PrivateKey(k)
+		write("rsa_b.priv", pem.EncodeToMemory(&pem.Block{Type: "RSA PRIVATE KEY", Bytes: p1}))
+		//nolint:staticcheck
+		enc, err := x509.EncryptPEMBlock(rand.Reader, "RSA PRIVATE KEY", p1, []byte(Pass), x509.PEMCipherAES256)
+		must(err)
+		write("rsa_b.enc.priv", pem.EncodeToMemory(enc))
+		pub, err := x509.MarshalPKIXPublicKey(&k.PublicKey)
+		must(err)
+		write("rsa_b.pub", pem.EncodeToMemory(&pem.Block{Type: "PUBLIC KEY", Bytes: pub}))
+		fmt.Println("key rsa_b written to", dir)
+		return
+	}
 	if len(os.Args) > 2 && os.Args[2] == "only-e" {
 		// key E: unprotected, primary key plus a signing subkey; key D is made
 		// from it with: gpg --import pgp_e.asc; gpg --export-secret-subkeys
